@@ -18,6 +18,14 @@ LITS = {
     "70000": {"smallint": "FAIL", "int": "70000", "bigint": "70000", "double": "70000", "varchar": "70000", "date": "FAIL"},
     "3000000000": {"smallint": "FAIL", "int": "FAIL", "bigint": "3000000000", "double": "3000000000", "varchar": "3000000000"},
     "1.5": {"smallint": "FAIL", "int": "FAIL", "bigint": "FAIL", "double": "1.5", "varchar": "1.5", "decimal(10,2)": "1.50?"},
+    "1.0": {"smallint": "1", "int": "1", "bigint": "1", "double": "1", "decimal(10,2)": "1.00?"},
+    "-2.5": {"smallint": "FAIL", "int": "FAIL", "bigint": "FAIL", "double": "-2.5", "decimal(10,2)": "-2.50?"},
+    "0.4": {"smallint": "FAIL", "int": "FAIL", "bigint": "FAIL", "double": "0.4"},
+    "1.255": {"smallint": "FAIL", "int": "FAIL", "bigint": "FAIL", "double": "1.255", "decimal(10,2)": "FAIL"},
+    "123456789012.5": {"smallint": "FAIL", "int": "FAIL", "bigint": "FAIL", "double": "123456789012.5", "decimal(10,2)": "FAIL"},
+    "'1.5'": {"smallint": "FAIL", "int": "FAIL", "bigint": "FAIL", "double": "1.5", "varchar": "1.5"},
+    "' 7'": {"varchar": " 7"},
+    "''": {"smallint": "FAIL", "int": "FAIL", "bigint": "FAIL", "double": "FAIL", "boolean": "FAIL", "varchar": "", "date": "FAIL", "decimal(10,2)": "FAIL"},
     "'abc'": {"smallint": "FAIL", "int": "FAIL", "bigint": "FAIL", "double": "FAIL", "boolean": "FAIL", "varchar": "abc", "date": "FAIL", "decimal(10,2)": "FAIL"},
     "'12'": {"smallint": "12", "int": "12", "bigint": "12", "double": "12", "varchar": "12", "date": "FAIL"},
     "true": {"boolean": "true", "varchar": "true", "int": "1?", "smallint": "1?", "bigint": "1?"},
@@ -36,19 +44,22 @@ def insert_cases():
             yield {"type": ty, "constraint": constraint.strip(), "source": "omitted", "lit": "null"}
             yield {"type": ty, "constraint": constraint.strip(), "source": "select null-producing", "lit": "null"}
             yield {"type": ty, "constraint": constraint.strip(), "source": "select bigint 3000000000", "lit": "3000000000"}
+            yield {"type": ty, "constraint": constraint.strip(), "source": "select double 2.5", "lit": "2.5"}
 
 
 def insert_script(c, engine):
     ty, cons = c["type"], c["constraint"]
     ddl = f"create table t(x {ty}, y int, primary key(x))" if cons.startswith("table-level") else f"create table t(x {ty}{' ' + cons if cons else ''}, y int)"
     steps = [{"sql": ddl},
-             {"sql": "create table src(p bigint, q int)"}, {"sql": "insert into src values (3000000000, null)"}]
+             {"sql": "create table src(p bigint, q int, d double)"}, {"sql": "insert into src values (3000000000, null, 2.5)"}]
     if c["source"].startswith("values"):
         steps.append({"sql": f"insert into t values ({c['lit']}, 7)"})
     elif c["source"] == "omitted":
         steps.append({"sql": "insert into t(y) values (7)"})
     elif c["source"].startswith("select null"):
         steps.append({"sql": "insert into t select q, 7 from src"})
+    elif c["source"].startswith("select double"):
+        steps.append({"sql": "insert into t select d, 7 from src"})
     else:
         steps.append({"sql": "insert into t select p, 7 from src"})
     steps += [{"sql": "select x, y from t"}, {"sql": "select count(*) from t where x is null"}]
@@ -102,6 +113,12 @@ def judge_insert(chk, c, engine, r):
         exp = LITS.get(c["lit"], {}).get(c["type"])
         if c["source"].startswith("select bigint"):
             exp = {"smallint": "FAIL", "int": "FAIL", "bigint": "3000000000", "double": "3000000000", "varchar": "3000000000"}.get(c["type"])
+        if c["source"].startswith("select double"):
+            exp = {"smallint": "FAIL", "int": "FAIL", "bigint": "FAIL", "double": "2.5", "varchar": "2.5", "decimal(10,2)": "2.50?"}.get(c["type"])
+        if exp == "FAIL" and c["type"].startswith("decimal") and c["lit"] in ("1.255", "123456789012.5"):
+            # stored unchanged, but it is not a DECIMAL(10,2) value
+            chk.fail(cid, f"declared-precision-or-scale-not-enforced@{tag}", case, {"source": c["lit"], "stored": val}, outcome="scale-ignored")
+            return
         if exp == "FAIL":
             chk.fail(cid, f"lossy-or-invalid-conversion-accepted@{tag}", case, {"source": c["lit"], "stored": val}, outcome="lossy-accepted")
             return
@@ -119,7 +136,7 @@ def judge_insert(chk, c, engine, r):
 def run(tier, seed):
     chk = core.Check("C16", tier, "exploration",
                      "(a) every successfully executed corpus statement (databases x {memory, disk}): kinds of every returned chunk == statically derived output kinds, single width; "
-                     "(b) INSERT enumeration: 8 column types x {nullable, NOT NULL, PRIMARY KEY} x {9 literals of all types, NULL, omitted column, INSERT..SELECT of NULL and of an out-of-range BIGINT} x {memory, disk (+reopen)}; "
+                     "(b) INSERT enumeration: 8 column types x {nullable, NOT NULL, PRIMARY KEY} x {17 literals of all types (integers in and out of range, fractions, strings, booleans, dates), NULL, omitted column, INSERT..SELECT of NULL, of an out-of-range BIGINT and of a fractional DOUBLE} x {memory, disk (+reopen)}; "
                      "a case = (statement, db, engine) resp. (type, constraint, source, engine); non-trivial = the statement executed / the insert was attempted", seed)
     # ---- (a)
     js = planutil.jobs(tier)
